@@ -20,4 +20,38 @@ var _ = url.Parse
 //@ extern func url.PathUnescape(s string) (r string, err error)
 //@   pure
 
+// Trusted lemmas about net/url (not provable here: both functions are uninterpreted):
+//@ lemma pathEscapeInverse(x string)
+//@   trusted net/url documentation: "PathUnescape does the inverse transformation of PathEscape"
+//@   ensures inv: verifUnescVal(url.PathEscape(x)) == x && verifUnescOK(url.PathEscape(x))
+//@   trigger url.PathEscape(x)
+
+//@ lemma pathUnescapePlainPrefix(a string, b string)
+//@   trusted net/url unescape copies bytes other than '%' verbatim, left to right: a prefix without '%' is kept and the rest is unescaped independently
+//@   requires plain: vForallIn(0, len(a), func(j int) bool { return a[j] != '%' })
+//@   ensures cat: verifUnescOK(a + b) == verifUnescOK(b) && (verifUnescOK(b) ==> verifUnescVal(a + b) == a + verifUnescVal(b))
+//@   trigger verifUnescVal(a + b)
+
+//@ lemma pathUnescapeCat(a string, b string)
+//@   trusted net/url unescape works left to right on complete %XX tokens: if both halves unescape on their own, the concatenation unescapes to the concatenation
+//@   requires ok: verifUnescOK(a) && verifUnescOK(b)
+//@   ensures cat: verifUnescOK(a + b) && verifUnescVal(a + b) == verifUnescVal(a) + verifUnescVal(b)
+//@   trigger verifUnescVal(a + b)
+
+//@ lemma pathUnescapePlain(a string)
+//@   trusted net/url unescape returns its argument when it contains no '%'
+//@   requires plain: vForallIn(0, len(a), func(j int) bool { return a[j] != '%' })
+//@   ensures id: verifUnescOK(a) && verifUnescVal(a) == a
+//@   trigger verifUnescVal(a)
+
+func verifUnescVal(s string) string {
+	r, _ := url.PathUnescape(s)
+	return r
+}
+
+func verifUnescOK(s string) bool {
+	_, err := url.PathUnescape(s)
+	return err == nil
+}
+
 var _ = url.PathEscape
